@@ -40,6 +40,7 @@ fn main() {
         "C14" => vcore::props::c14::run(&args, &mut rep),
         "C14-random" => vcore::props::c14::run_random(&args, &mut rep),
         "C03-sessions" => vcore::props::c03::run_sessions(&args, &mut rep),
+        "C03-arrays" => vcore::props::c03::run_arrays(&args, &mut rep),
         "C03-lean" => vcore::props::c03::run_lean(&args, &mut rep),
         "C03-components" => vcore::props::c03::run_components(&args, &mut rep),
         "gen-decls" => {
